@@ -223,7 +223,7 @@ def cfg : Config :=
 /-- first packet of FDT instance `i` (two symbols announced, only this one ever sent) -/
 def pk (i : Nat) : Pkt :=
   { toi := 0, closeObject := false, closeSession := false, fdtId := some i, sct := none,
-    fti := some ⟨⟨0, 64, 64⟩, 128⟩, pid := some (0, 0), plen := 64, dlen := 100 }
+    fti := some ⟨{ fec := 0, esl := 64, msbl := 64 }, 128⟩, pid := some (0, 0), plen := 64, dlen := 100 }
 def unfinished : List Op := (List.range 12).map (fun i => Op.data (.pkt (pk i)) 0 .err)
 def allStale : Stale := ⟨fun _ => true, fun _ => true⟩
 def final (ops : List Op) : Option Nat :=
